@@ -549,6 +549,137 @@ def pred_c09_order(prog, ob):
     return None
 
 
+def pred_c11_const(prog, ob):
+    """whenever a transition condition is evaluated during a run of framer M (by M itself or by one of its
+    auxiliaries), M's elapsed and recurred are the values of THIS run: they do not change between the start
+    of M's segue and M's first taken transition / the end of the segue"""
+    orc = ob.get("oracle", [])
+    stack = []          # [framer, [(elapsed, recurred, where)], frozen?]
+    for e in orc:
+        if e[0] == "segue":
+            if e[3] == "begin":
+                stack.append([e[2], [], False])
+            elif stack:
+                m, vals, frozen = stack.pop()
+                if not frozen and len(e) > 4:
+                    vals.append((e[4][1], e[4][2], "end of its run"))
+                seen = set((a, b) for a, b, _ in vals)
+                if len(seen) > 1:
+                    return ("clock-changes-mid-run", "tick %d: framer %s's clocks were read as %s within one run before "
+                            "any of its own transitions was taken (a condition saw a stale elapsed / recurred)"
+                            % (e[1], m, [(float.fromhex(a), b, w) for a, b, w in vals][:6]))
+        elif e[0] in ("transit", "suspend") and e[8] is not None:
+            S = e[5]
+            for fr in stack:
+                if not fr[2] and fr[0] in S:
+                    fr[1].append((S[fr[0]][4], S[fr[0]][5], "%s of %s" % (e[0], e[2])))
+            if e[0] == "transit" and e[9]:
+                for fr in stack:
+                    if fr[0] == e[2]:
+                        fr[2] = True
+    return None
+
+
+def pred_c03_end(prog, ob, crashed=False):
+    """a run that ends by itself (no fault, tick limit not reached) ends only when no scheduled tasker is
+    started or running: the final sweep finds none in that state"""
+    if crashed or ob.get("excn") or ob.get("ticks", 0) >= ob.get("maxticks", 0):
+        return None
+    ix = kernel.Index(prog)
+    taskables = set(ix.taskables(prog))
+    sends = [e for e in ob["trace"] if e[0] == "send" and e[2] in taskables]
+    if not sends:
+        return None
+    last_tick = max(e[1] for e in sends)
+    status, desire = {}, {}
+    bids = bid_table(prog)
+    pending = []
+    for e in ob["trace"]:
+        if e[0] == "rec":
+            if e[2] in bids:
+                pending.append(bids[e[2]])
+            continue
+        _, tk, t, c, r = e[:5]
+        if t not in taskables:
+            continue
+        for ctl, ts in pending:
+            for x in ts:
+                desire[x] = ctl
+        pending = []
+        if c == 3 and tk == last_tick and desire.get(t) != 3 and status.get(t) in RUNNING:
+            # an abort nobody asked for, in the last tick, on a started / running tasker = the final sweep
+            later = [x for x in sends if x[1] == tk and x[2] == t]
+            if later and later[-1] is e:
+                return ("ended-while-running", "tick %d: the run ended and swept tasker %d although it was still %s "
+                        "(no abort had been bid on it)" % (tk, t, "started" if status[t] == 1 else "running"))
+        if r is not None:
+            status[t] = r
+    return None
+
+
+def pred_c02_replay(prog, ob):
+    """replay of the scheduler's due test on the implementation's trace alone: every scheduler send goes to a
+    tasker that is due (retime <= stamp), every due live tasker is sent in that tick ("at its next due tick"),
+    and after a run retime advances from the PREVIOUS due time by the period the tasker has at that moment
+    (a bid's period applies from the next reschedule)"""
+    ix = kernel.Index(prog)
+    order = ix.taskables(prog)
+    tick = prog["tick"]
+    stamps, s = [], 0.0
+    for _ in range(4096):
+        stamps.append(s)
+        s += tick
+    period = {ix.tid[fm["name"]]: abs(fm.get("period", 0.0) or 0.0) for fm in prog["framers"]}
+    retime = {t: 0.0 for t in order}
+    alive = set(order)
+    bids = {}
+    for fm in prog["framers"]:
+        for fr in fm["frames"]:
+            for key in ("enacts", "renacts", "reacts", "exacts", "rexacts"):
+                acts = fr.get(key, [])
+                for i in range(len(acts) - 1):
+                    if acts[i][0] == "rec" and acts[i + 1][0] == "bid" and acts[i + 1][3] is not None \
+                            and acts[i + 1][1] not in ("stop", "abort"):
+                        ts = []
+                        for nm in acts[i + 1][2]:
+                            if nm == "all":
+                                ts += list(order)
+                            elif nm == "me":
+                                ts.append(ix.tid[fm["name"]])
+                            else:
+                                ts.append(ix.tid[nm])
+                        bids[acts[i][1]] = (ts, max(0.0, acts[i + 1][3]))
+    last_tick = max([e[1] for e in ob["trace"]] or [0])
+    sent = {}
+    for e in ob["trace"]:
+        if e[0] == "rec":
+            if e[2] in bids:
+                for t in bids[e[2]][0]:
+                    period[t] = bids[e[2]][1]
+            continue
+        tk, t, c, r = e[1], e[2], e[3], e[4]
+        if t not in retime:
+            continue
+        if tk == last_tick and c == 3:
+            continue            # the final sweep
+        if t not in alive:
+            return ("sent-after-abort", "tasker %d sent control %d at tick %d after it had aborted" % (t, c, tk))
+        if retime[t] > stamps[tk]:
+            return ("ran-before-due", "tasker %d ran at tick %d (stamp %r) before its due time %r"
+                    % (t, tk, stamps[tk], retime[t]))
+        j = sent.get(t, -1) + 1
+        while j < tk:
+            if not (retime[t] > stamps[j]):
+                return ("ran-after-due", "tasker %d was due at tick %d (due time %r) but was first run at tick %d"
+                        % (t, j, retime[t], tk))
+            j += 1
+        sent[t] = tk
+        retime[t] = retime[t] + period[t]
+        if r == 3 or r is None:
+            alive.discard(t)
+    return None
+
+
 def pred_c10(prog, ob):
     """a conditional auxiliary that is not entered, whose conditions hold, which is free and may start, is
     entered by the attempt; the frames below its main frame are suspended (truthy result) only while it is
@@ -604,7 +735,8 @@ def pred_c10(prog, ob):
 
 PREDS = {"C04": pred_c04, "C03": pred_c03, "C05": pred_c05, "C06": pred_c06, "C09": pred_c09, "C11": pred_c11,
          "C08": pred_c08, "C04s": pred_c04_start, "C09d": pred_c09_done, "C10": pred_c10,
-         "C09o": pred_c09_order}
+         "C09o": pred_c09_order, "C11c": pred_c11_const, "C03e": pred_c03_end,
+         "C02r": pred_c02_replay}
 
 
 def kernel_check(ctx, pid, runs, preds, rule, extra_assumptions=(), corpus=(), extra_checks=()):
@@ -650,7 +782,7 @@ def kernel_check(ctx, pid, runs, preds, rule, extra_assumptions=(), corpus=(), e
             continue
         for pr in preds:
             f = PREDS[pr]
-            res = f(p, ob, crashed=ca) if pr in ("C03", "C06") else f(p, ob)
+            res = f(p, ob, crashed=ca) if pr in ("C03", "C06", "C03e") else f(p, ob)
             if res:
                 key, why = res
                 key = "%s:%s" % (pr, key)
